@@ -49,9 +49,14 @@ def replay_obligation(ob, idx):
 
 
 def run(prop, args, Ts, whichs, keep=None, level="proof", extra=None, functions=(), max_replays=8, flags=(), prefix="",
-        only_safety=False, more_jobs=()):
+        only_safety=False, more_jobs=(), enum_subset_in_quick=False):
     run_ = core.Run(prop, args.tier, level, "./check %s --tier %s" % (prop, args.tier))
-    jobs = cpp_views.jobs(Ts, whichs, args.tier, prefix=prefix, flags=flags)
+    select = None
+    if enum_subset_in_quick and args.tier == "quick":
+        # every enum underlying type is checked in full by C19 on every run; here the quick tier keeps the two extremes
+        select = lambda w, c, order, backing, ety: ety in (None, "ES8", "EU64")
+        run_.extra["quick_tier_reduction"] = "EnumView: underlying types int8_t and uint64_t only (all eight are checked by C19 in the quick tier and here in the thorough tier)"
+    jobs = cpp_views.jobs(Ts, whichs, args.tier, prefix=prefix, flags=flags, select=select)
     for j in jobs:
         j["only_safety"] = only_safety
     jobs += list(more_jobs)
